@@ -4,6 +4,7 @@ import (
 	"fmt"
 	"go/token"
 	"go/types"
+	"strings"
 
 	"golang.org/x/tools/go/ssa"
 
@@ -290,6 +291,16 @@ func c20Extra(p *core.Program, r *core.Report) {
 							Reason: "waiting = true is not dominated by the tests !waiting and !stop"})
 					}
 				}
+				if isC && !b {
+					// GG2: a permission is consumed only when the throttle is known not to be
+					// cancelled - by a test of stop made after the last wait
+					okC := freshNotStopped(g, in.Block(), in)
+					r.Obligation("GG2", okC, map[string]any{"rule": "GG2", "function": gname, "what": "a permission is consumed only under !stop tested after the last wait", "at": p.InstrPos(in), "ok": okC})
+					if !okC {
+						r.Violation(core.Diag{Rule: "GG2", Func: gname, Object: "consume guard", Pos: p.InstrPos(in),
+							Reason: "waiting = false is not dominated by a test of !stop made after the last cond.Wait: a permission that is pending when Cancel arrives is still consumed"})
+					}
+				}
 			case "last":
 				// TS1: the period starts where a permission is consumed: same block region as waiting = false, value time.Now()
 				okV := false
@@ -322,6 +333,44 @@ func c20Extra(p *core.Program, r *core.Report) {
 			}
 		}
 	}
+	// GG2: Next answers true only when the throttle is known not to be cancelled
+	if fn := p.Func("gogu.(*throttler).Next"); fn != nil {
+		for _, alt := range returnAlternatives(fn, 0) {
+			okR, why := false, ""
+			if bc, isC := path.BoolConst(alt.val); isC {
+				if !bc {
+					continue
+				}
+				okR = freshNotStopped(fn, alt.blk, alt.ret)
+				why = "Next returns true on a path that is not dominated by a test of !stop made after the last cond.Wait: it can return true after Cancel"
+			} else {
+				// !t.stop read on the spot
+				v := alt.val
+				neg := false
+				for {
+					if u, ok := v.(*ssa.UnOp); ok && u.Op == token.NOT {
+						neg = !neg
+						v = u.X
+						continue
+					}
+					break
+				}
+				if u, ok := v.(*ssa.UnOp); ok && u.Op == token.MUL && neg {
+					if f, ok := slotOf(u.X, "throttler"); ok && f == "stop" && !waitBetween(fn, u, alt.ret) {
+						okR = true
+					}
+				}
+				if !okR && freshNotStopped(fn, alt.blk, alt.ret) {
+					okR = true // any answer under a fresh !stop
+				}
+				why = "the answer of Next is neither a constant nor !stop read after the last cond.Wait"
+			}
+			r.Obligation("GG2", okR, map[string]any{"rule": "GG2", "function": "gogu.(*throttler).Next", "what": "true only when not cancelled", "at": p.InstrPos(alt.ret), "ok": okR})
+			if !okR {
+				r.Violation(core.Diag{Rule: "GG2", Func: "gogu.(*throttler).Next", Object: "answer after Cancel", Pos: p.InstrPos(alt.ret), Reason: why})
+			}
+		}
+	}
 	okStamp := stampOK >= 1
 	r.Obligation("TS1", okStamp, map[string]any{"rule": "TS1", "what": "consuming a permission stamps the period start", "stamps": stampOK})
 	if !okStamp {
@@ -332,6 +381,7 @@ func c20Extra(p *core.Program, r *core.Report) {
 	r.Floor("SR1", 2)
 	r.Floor("MF1", 1)
 	r.Floor("GG1", 2)
+	r.Floor("GG2", 2)
 	_ = fmt.Sprint
 }
 
@@ -385,4 +435,110 @@ func stopBeforeStore(fn *ssa.Function, st *ssa.Store) bool {
 		return false
 	}
 	return !visit(fn.Blocks[0])
+}
+
+// freshNotStopped: block b is dominated by the edge on which a load of
+// throttler.stop is false, and no path from that load to instruction at passes a
+// (*sync.Cond).Wait (during which Cancel may set the flag).
+func freshNotStopped(fn *ssa.Function, b *ssa.BasicBlock, at ssa.Instruction) bool {
+	for _, g := range path.Guards(fn, b) {
+		c := g.If.Cond
+		neg := false
+		for {
+			if u, ok := c.(*ssa.UnOp); ok && u.Op == token.NOT {
+				neg = !neg
+				c = u.X
+				continue
+			}
+			break
+		}
+		u, ok := c.(*ssa.UnOp)
+		if !ok || u.Op != token.MUL {
+			continue
+		}
+		f, ok := slotOf(u.X, "throttler")
+		if !ok || f != "stop" {
+			continue
+		}
+		val := g.Idx == 0
+		if neg {
+			val = !val
+		}
+		if val {
+			continue
+		}
+		if !waitBetween(fn, u, at) {
+			return true
+		}
+	}
+	return false
+}
+
+// waitBetween: some path from instruction from to instruction to passes a call of
+// (*sync.Cond).Wait.
+func waitBetween(fn *ssa.Function, from, to ssa.Instruction) bool {
+	isWait := func(in ssa.Instruction) bool {
+		ci, ok := in.(ssa.CallInstruction)
+		if !ok {
+			return false
+		}
+		callee := ci.Common().StaticCallee()
+		if callee == nil || callee.Name() != "Wait" || callee.Signature.Recv() == nil {
+			return false
+		}
+		return strings.Contains(callee.Signature.Recv().Type().String(), "sync.Cond")
+	}
+	// instructions reachable from `from`
+	var waits []ssa.Instruction
+	seen := map[*ssa.BasicBlock]bool{}
+	var fwd func(b *ssa.BasicBlock, start int)
+	fwd = func(b *ssa.BasicBlock, start int) {
+		for i := start; i < len(b.Instrs); i++ {
+			if isWait(b.Instrs[i]) {
+				waits = append(waits, b.Instrs[i])
+			}
+		}
+		for _, s := range b.Succs {
+			if !seen[s] {
+				seen[s] = true
+				fwd(s, 0)
+			}
+		}
+	}
+	idx := func(in ssa.Instruction) int {
+		for i, x := range in.Block().Instrs {
+			if x == in {
+				return i
+			}
+		}
+		return 0
+	}
+	fwd(from.Block(), idx(from)+1)
+	for _, w := range waits {
+		// can `to` be reached from w?
+		seen2 := map[*ssa.BasicBlock]bool{}
+		found := false
+		var f2 func(b *ssa.BasicBlock, start int)
+		f2 = func(b *ssa.BasicBlock, start int) {
+			for i := start; i < len(b.Instrs); i++ {
+				if b.Instrs[i] == from {
+					return // the flag is read again on this path: not stale
+				}
+				if b.Instrs[i] == to {
+					found = true
+				}
+			}
+			for _, s := range b.Succs {
+				if !seen2[s] {
+					seen2[s] = true
+					f2(s, 0)
+				}
+			}
+		}
+		f2(w.Block(), idx(w)+1)
+		if found {
+			return true
+		}
+	}
+	return false
 }
